@@ -169,6 +169,22 @@ pub fn gen_fk_models(rng: &mut Rng, odd_names: bool, allow_cycle: bool) -> Vec<T
                 }
             }
         }
+        // a deliberate single-column FK cycle (D15): a.cx -> b.cy, b.cy -> a.cx, or a.cx -> a.cx
+        if allow_cycle && !ts.is_empty() {
+            let a = rng.below(ts.len());
+            let b = if rng.chance(1, 3) { a } else { rng.below(ts.len()) };
+            let (an, bn) = (ts[a].name.clone(), ts[b].name.clone());
+            let (ca, cb) = if a == b { ("cx".to_string(), "cx".to_string()) } else { ("cx".to_string(), "cy".to_string()) };
+            for (k, c) in [(a, &ca), (b, &cb)] {
+                if !ts[k].columns.iter().any(|x| x.name == *c) {
+                    ts[k].columns.push(col(c, int(), true));
+                }
+            }
+            ts[a].constraints.push(TableConstraint::ForeignKey { name: None, columns: vec![ca.clone()], ref_table: bn, ref_columns: vec![cb.clone()], on_delete: None, on_update: None });
+            if a != b {
+                ts[b].constraints.push(TableConstraint::ForeignKey { name: None, columns: vec![cb], ref_table: an, ref_columns: vec![ca], on_delete: None, on_update: None });
+            }
+        }
         if rng.chance(1, 3) {
             rng.shuffle(&mut ts);
         }
